@@ -342,6 +342,31 @@ func subFilter(out string, seed uint64, tier string, arg string) {
 		emit(&filterOp{regSpec: "G", reg: g, nf: re, is: []string{allSources[rng.Intn(len(allSources))]}})
 		emit(&filterOp{regSpec: "G", reg: g, nf: re, in: []string{k}, xs: []string{allSources[rng.Intn(len(allSources))]}})
 	}
+	// patterns built from the registry's own names: exact, anchored both ways, proper prefixes / suffixes / infixes
+	// anchored (must select nothing unless they are names themselves), quoted, grouped, case-folded, alternations
+	{
+		nd := 10
+		if tier == "thorough" {
+			nd = 120
+		}
+		for i := 0; i < nd; i++ {
+			n := gnames[rng.Intn(len(gnames))]
+			m := gnames[rng.Intn(len(gnames))]
+			a, b := rng.Intn(len(n)), rng.Intn(len(n))
+			if a > b {
+				a, b = b, a
+			}
+			q := regexp.QuoteMeta
+			for _, pat := range []string{"^" + q(n) + "$", "\\A" + q(n) + "\\z", "^" + q(n[:b]) + "$", "^" + q(n[a:]) + "$", "^" + q(n[a:b]) + "$", q(n), q(n[a:b]),
+				"^(?:" + q(n) + ")$", "(?i)^" + q(strings.ToUpper(n)) + "$", "^" + q(n) + "|" + q(m) + "$", "^(" + q(n) + "|" + q(m) + ")$", q(n) + "$", "^" + q(n), "^" + q(n) + "$|^$", "(?m)^" + q(n[a:]) + "$"} {
+				re, err := regexp.Compile(pat)
+				if err != nil {
+					continue
+				}
+				emit(&filterOp{regSpec: "G", reg: g, nf: re})
+			}
+		}
+	}
 	for i := 0; i < nG; i++ {
 		emit(genOpts(g, "G", gnames))
 	}
